@@ -773,6 +773,15 @@ def gen_steps(rng, nodespec, nsteps):
     steps = []
     for i in range(nsteps):
         r = rng.random()
+        if params and rng.random() < 0.06:
+            # a fault inside the module: it assigns a parameter itself; the next request reads that parameter
+            st = gen_assign(rng, params, rng.randrange(1 << 30))
+            steps.append(st)
+            m, a = st['spec'].split(':', 1)
+            exp = next(e[4] for e in params if e[0] == m and e[1] == a)
+            steps.append({'kind': 'read', 'spec': '%s:%s' % (m, guess_wire(rng, a, exp, 'param')), 'data': None,
+                          'script': 'value_valid', 'seed': rng.randrange(1 << 30)})
+            continue
         kind = 'change' if r < 0.58 else 'do' if r < 0.78 else 'read'
         if kind == 'do' and not cmds and rng.random() < 0.85:
             kind = 'change'
@@ -1033,6 +1042,9 @@ def run_case(nodespec, steps):
         orc.step = n
         before = cache_rows(node)
         kind, spec, data = st['kind'], st['spec'], st['data']
+        if kind == 'assign':
+            out_steps.append(run_assign(node, orc, conn, st, before))
+            continue
         # python objects needed for the oracle are those of BEFORE the request
         modname, accname = split_spec(spec)
         pre = []
@@ -1089,6 +1101,46 @@ def run_case(nodespec, steps):
             'accept_outside_model': orc.count_outside}
 
 
+BAD_RAW = ['a much too long string, longer than any limit', float('nan'), float('inf'), -1e300, 10 ** 40, None, [1, 2, 3, 4, 5, 6, 7, 8, 9],
+           {'zz': 1}, b'\x00' * 40, 'ä', -7, 2.5]
+
+
+def run_assign(node, orc, conn, st, before):
+    """module code assigns a parameter (`self.<attr> = raw`): not a request; the model gets the datatype's verdict on raw"""
+    m, attr = st['spec'].split(':', 1)
+    raw = st['data']
+    modobj = node.secnode.modules.get(m)
+    pobj = modobj.parameters.get(attr) if modobj is not None else None
+    if pobj is not None:
+        dt = pobj.datatype
+        r = oracle_call(dt, raw)
+        orc.put('convert', [m, attr, None if raw is None else canon(raw)], orc.res(r))
+        if r[0] == 'ok':
+            e = oracle_call(dt.export_value, r[1])
+            orc.put('export', [m, attr, canon(r[1])], canonj(e[1]) if e[0] == 'ok' else 'EXPORT-ERROR')
+        try:
+            setattr(modobj, attr, raw)
+        except Exception:
+            pass
+    obs = {'reply': ['done', None], 'calls': [], 'emits': [msg_obs(x) for x in conn.msgs], 'before': before,
+           'after': cache_rows(node)}
+    conn.msgs.clear()
+    return {'req': ['assign', m, attr, None if raw is None else canon(raw)], 'drv': 'none', 'obs': obs, 'pyclass': None}
+
+
+def gen_assign(rng, params, seed):
+    """an assignment inside the module: mostly values the datatype refuses, sometimes a valid one"""
+    m, a, _, dtspec, _ = rng.choice(params)
+    if dtspec is not None and rng.random() < 0.35:
+        try:
+            raw = mk_dtype(dtspec).import_value(gen_valid(rng, dtspec))
+        except Exception:
+            raw = rng.choice(BAD_RAW)
+    else:
+        raw = rng.choice(BAD_RAW)
+    return {'kind': 'assign', 'spec': '%s:%s' % (m, a), 'data': raw, 'script': 'none', 'seed': seed}
+
+
 def _script_exc(box, st, n):
     """the exception the scripted driver raises at this step (same draw as drv_behave makes)"""
     from frappy.errors import HardwareError, CommunicationFailedError
@@ -1131,6 +1183,9 @@ def _diff_rows(a, b):
 
 def classify(st):
     req, obs = st['req'], st['obs']
+    if req[0] == 'assign':
+        return 'assign.' + ('stored' if obs['before'] != obs['after'] and any(e[0] == 'update' for e in obs['emits'])
+                            else 'refused' if any(e[0] == 'error_update' for e in obs['emits']) else 'silent')
     return '%s.%s' % (req[0], obs['reply'][0] if obs['reply'][0] != 'error' else obs['reply'][1])
 
 
